@@ -350,3 +350,34 @@ pub fn short(s: &str, n: usize) -> String {
         s.to_string()
     }
 }
+
+impl Report {
+    /// merge a report produced on another thread
+    pub fn absorb(&mut self, o: Report) {
+        self.evaluations += o.evaluations;
+        for (k, v) in o.counters {
+            if k.starts_with("max_") {
+                let e = self.counters.entry(k).or_insert(0);
+                if v > *e {
+                    *e = v;
+                }
+            } else {
+                *self.counters.entry(k).or_insert(0) += v;
+            }
+        }
+        for (h, b) in o.hists {
+            let d = self.hists.entry(h).or_default();
+            for (k, v) in b {
+                *d.entry(k).or_insert(0) += v;
+            }
+        }
+        self.distinct.extend(o.distinct);
+        self.violation_count += o.violation_count;
+        for v in o.violations {
+            if self.violations.len() < 25 {
+                self.violations.push(v);
+            }
+        }
+        self.harness_errors.extend(o.harness_errors);
+    }
+}
